@@ -320,4 +320,59 @@ def r14_8(ctx):
     borrow(ctx, r5_1, "R5.1", "R14.8", " [premise of exception-free rendering: a Text whose _length or span offsets run ahead of its characters makes Text.render raise (StopIteration -> RuntimeError) when printed]")
 
 
-RULES = [r14_1, r14_2, r14_3, r14_4, r14_5, r14_6, r14_7, r14_8]
+def r14_9(ctx):
+    from .. import cfg as cfgmod
+    from ..yieldpaths import canon_test
+    ctx.rule("R14.9", "precondition of ratio_distribute (`assert sum(ratios) > 0`) at every call site in table.py: the ratios argument is either dominated by a true `any(<it>)` test, or every definition of it that reaches the call is a comprehension whose elements are forced to be at least 1 (`x or 1`, `max(1, x)`), so an all-empty table cannot trip the assertion while rendering or measuring")
+    tm = ctx.repo.mod("table")
+    n = 0
+    for f in tm.functions.values():
+        calls = [c for c in walk_local(f.node) if isinstance(c, ast.Call) and isinstance(c.func, ast.Name) and c.func.id == "ratio_distribute" and len(c.args) >= 2]
+        if not calls:
+            continue
+        g = cfgmod.build(f.node)
+        rd = g.reaching_defs(weak=False)
+        for c in calls:
+            n += 1
+            arg = c.args[1]
+            st = c
+            while not isinstance(st, ast.stmt):
+                st = tm.parent_of[st]
+            where = f"{tm.relpath}:{c.lineno}"
+            guarded = False
+            for nid in g.nodes_of(st):
+                for t, v in g.branch_facts(nid):
+                    for a, tv in canon_test(t, v):
+                        if tv is True and a == f"any({norm(arg)})":
+                            guarded = True
+            if guarded:
+                ctx.ok(where, f"`{norm(arg)}` has a non-zero element (dominating any() test)", f.fq)
+                continue
+            ok = isinstance(arg, ast.Name)
+            why = f"`{norm(arg)}` is not a local list"
+            if ok:
+                defs = set()
+                for nid in g.nodes_of(st):
+                    defs |= rd.get(nid, {}).get(arg.id, set())
+                ok = bool(defs)
+                for d in defs:
+                    ds = g.nodes[d].stmt
+                    v = ds.value if isinstance(ds, ast.Assign) and g.nodes[d].kind == "stmt" else None
+
+                    def at_least_one(e):
+                        if isinstance(e, ast.BoolOp) and isinstance(e.op, ast.Or) and isinstance(e.values[-1], ast.Constant) and isinstance(e.values[-1].value, int) and e.values[-1].value >= 1:
+                            return True
+                        if isinstance(e, ast.Call) and norm(e.func) == "max" and any(isinstance(a_, ast.Constant) and isinstance(a_.value, int) and a_.value >= 1 for a_ in e.args):
+                            return True
+                        if isinstance(e, ast.Constant) and isinstance(e.value, int) and e.value >= 1:
+                            return True
+                        return False
+                    if not (isinstance(v, ast.ListComp) and at_least_one(v.elt)):
+                        ok = False
+                        why = f"`{short(ds) if ds is not None else 'parameter'}` reaches the call and does not force every element to be >= 1"
+            ctx.check(ok, f.fq, short(c), where, f"every element of `{norm(arg)}` is at least 1 at the call",
+                      f"`{short(c)}`: {why} - when every column measures 0 (empty cells, no padding) the sum of ratios is 0 and ratio_distribute's assertion fails: an expanding table raises AssertionError on render and on measure")
+    ctx.floor(n, 2, "ratio_distribute call sites")
+
+
+RULES = [r14_1, r14_2, r14_3, r14_4, r14_5, r14_6, r14_7, r14_8, r14_9]
